@@ -116,13 +116,25 @@ def replay(path):
         print("front end:", exc, emb.error_summary(errors))
         return 0
     header, herr = emb.generate_header(ir)
-    ns = re.search(r'namespace: "([^"]+)"', rec["emb"]).group(1)
+    ns = re.search(r'namespace: "([^"]+)"', rec["emb"]).group(1).strip(":")
+    params = rec.get("parameters") or []
+    make = "::%s::Make%sView" % (ns, rec["struct"])
+    if params:
+        casts = None
+        for t in emb.ir_to_dict(ir)["module"][0]["type"]:
+            if t["name"]["name"]["text"] == rec["struct"]:
+                casts = c06_corpus.param_kinds(t, ns)
+        if not casts or len(casts) != len(params):
+            print("cannot rebuild the parameter list", params)
+            return 2
+        args = ", ".join("%s(%dLL)" % (c, v) for c, v in zip(casts, params))
+        make = "[](unsigned char *d, size_t n) { return ::%s::Make%sView(%s, d, n); }" % (ns, rec["struct"], args)
     d = os.path.join(common.scratch(), "replay")
     os.makedirs(d, exist_ok=True)
     with open(os.path.join(d, "m.emb.h"), "w") as f:
         f.write(header)
     src = (cppbuild.CHECK_PRELUDE + '#include "m.emb.h"\n' + c06_txt.DRIVER_PRELUDE +
-           REPLAY_MAIN.replace("MAKE", "::%s::Make%sView" % (ns, rec["struct"])))
+           REPLAY_MAIN.replace("MAKE", "(%s)" % make))
     binary, log = cppbuild.compile_one(src, name="replay", extra=["-I" + d])
     if binary is None:
         print(log[-3000:])
@@ -131,7 +143,7 @@ def replay(path):
     res = cppbuild.run(binary, "", args=[rec["buffer"] or "-", str(o["multiline"]), str(o["comments"]),
                                          str(o["base"]), str(o["grouping"])])
     print(rec["emb"])
-    print("struct %s, buffer %s, options %r" % (rec["struct"], rec["buffer"], o))
+    print("struct %s, parameters %r, buffer %s, options %r" % (rec["struct"], params, rec["buffer"], o))
     print(res.kind)
     print(res.out)
     print(res.err[-2000:])
